@@ -18,6 +18,6 @@ meta = dict(id=sid, breaks_property=info['breaks'], change=info['change'], needs
                            pytest=pt[0] if pt else '?'),
             detection=dict(caught_by=info['caught_by'], note=info['note'],
                            command='tools/try_seed.py seeded/%s/patch.diff %s' % (sid, ','.join(info['caught_by']))),
-            origin='independent sub-agent (fourth round) given only the property text, a scratch worktree and the locations of the earlier changes to avoid')
+            origin=info.get('origin') or 'independent sub-agent (fourth round) given only the property text, a scratch worktree and the locations of the earlier changes to avoid')
 json.dump(meta, open(os.path.join(d, 'meta.json'), 'w'), indent=1)
 print('stored', d)
